@@ -379,6 +379,40 @@ def r17_8(chk, facts):
                 else: chk.fail('R17.8', site, fn['file'], steps[0].get('l'), 'decode: the %s branch calls cursor.next() (line %s) after reading the value: the caller advances again and the next member name is lost ("Not a key")' % (evn, steps[0].get('l')), None, fn['q'])
     chk.require(n >= 1, 'R17.8: no single-event value branch found in decode_traits.hpp')
 
+def r17_9(chk, tier):
+    """Building a basic_json from cursor events keeps the semantic tag of every scalar event."""
+    from .. import cfg as C, guards as G
+    chk.rule('R17.9', 'event to value: in the cursor-to-basic_json builders of staj_cursor.hpp every case of a scalar event (string, byte string, '
+                      'bool, int64, uint64, half, double) builds the value with cursor.current().tag(); a dropped tag turns an epoch/bigdec/'
+                      'base64 value into a plain one on the streaming route only', floor=20)
+    facts = F.load(['reflect'], tier)
+    en = U.enum_value_names(U.enum_by_suffix(F.load(['core'], tier), '::staj_events'))
+    n = 0; seen = set()
+    for fn in facts.functions:
+        if fn.get('body') is None or fn.get('dep') or not fn['file'].endswith('jsoncons/staj_cursor.hpp') or (fn['file'], fn['l']) in seen: continue
+        if not any(A.callee_name(c) == 'tag' for c in A.calls_in(fn['body'], no_lambda=True)): continue
+        g = C.CFG(fn['body'])
+        first = True
+        for nd in g.rpo:
+            if nd.kind != 'switch' or 'event_type' not in A.text(nd.ast): continue
+            for e in nd.succ:
+                if e.kind != 'edge' or not isinstance(e.label, tuple) or e.label[0] != 'case': continue
+                evn = en.get(e.label[1], '')
+                if not evn.endswith('_value') or evn == 'null_value': continue
+                if first: seen.add((fn['file'], fn['l'])); chk.analysed(fn); first = False
+                n += 1
+                site = U.site(fn, 'switch@%d case %s' % (nd.line - fn['l'], evn))
+                has_tag = False; builds = False
+                for m in G.region_of_edge(g, e):
+                    if isinstance(m.ast, dict) and m.kind in ('stmt', 'return', 'cond'):
+                        for c in A.calls_in(m.ast):
+                            if A.callee_name(c) == 'tag' and 'current' in A.text(c.get('obj')): has_tag = True
+                            if A.callee_name(c) == 'get' and 'current' in A.text(c.get('obj')): builds = True
+                if not builds: n -= 1; continue
+                if has_tag: chk.ok('R17.9', site, {'event': evn})
+                else: chk.fail('R17.9', site, fn['file'], e.src.line if e.src is not None else fn['l'], '%s: the %s case builds the value without cursor.current().tag(): the semantic tag of the event is lost on this route' % (fn['n'], evn), None, fn['q'])
+    chk.require(n >= 20, 'R17.9: only %d scalar event cases found in staj_cursor.hpp' % n)
+
 def run(chk, tier, only_rule=None):
     chk.explanation = EXPLANATION
     chk.not_decided = NOT_DECIDED
@@ -390,5 +424,6 @@ def run(chk, tier, only_rule=None):
     r17_6(chk, facts)
     r17_7(chk, facts)
     r17_8(chk, facts)
+    r17_9(chk, tier)
     r17_3(chk, facts)
     r17_4(chk, facts)
